@@ -5,10 +5,12 @@ use serde::de::DeserializeOwned;
 use serde_json::Value;
 
 pub mod c01;
+pub mod c02;
 pub mod c07;
 pub mod c13;
 pub mod c14;
 pub mod c15;
+pub mod c17;
 pub mod c18;
 pub mod c19;
 
@@ -21,10 +23,12 @@ pub struct Entry {
 pub fn lookup(id: &str) -> Option<Entry> {
     let e = match id {
         "C01" => Entry { id: "C01", run: c01::run, replay: c01::replay },
+        "C02" => Entry { id: "C02", run: c02::run, replay: c02::replay },
         "C07" => Entry { id: "C07", run: c07::run, replay: c07::replay },
         "C13" => Entry { id: "C13", run: c13::run, replay: c13::replay },
         "C14" => Entry { id: "C14", run: c14::run, replay: c14::replay },
         "C15" => Entry { id: "C15", run: c15::run, replay: c15::replay },
+        "C17" => Entry { id: "C17", run: c17::run, replay: c17::replay },
         "C18" => Entry { id: "C18", run: c18::run, replay: c18::replay },
         "C19" => Entry { id: "C19", run: c19::run, replay: c19::replay },
         _ => return None,
